@@ -259,6 +259,7 @@ func NewFullRT(h host.Host, protocolPrefix protocol.ID, options ...Option) (*Ful
 		crawlerInterval: fullrtcfg.crawlInterval,
 
 		bulkSendParallelism:         fullrtcfg.bulkSendParallelism,
+		ipDiversityFilterLimit:      fullrtcfg.ipDiversityFilterLimit,
 		self:                        self,
 		peerConnectednessSubscriber: sub,
 	}
